@@ -275,7 +275,7 @@ theorem html_api_total (env : Env) (reads : List HtmlRead) (close : List (Item H
     (`except Exception`), e.g. when raised by the tokenizer in the second batch. -/
 theorem html_base_exception_propagates (env : Env) (n : Str) :
     htmlParse env [.text [.cb (.data ['x'])], .text [.raise (.base n)]] [] = ([], some (.propagate n)) := by
-  simp [htmlParse, parse, generate, feed, htmlLayer, htmlStep, HtmlReadG.toRead, htmlHandler, coalesceGo, flushBuf]
+  simp [htmlParse, parse, generate, feed, htmlLayer, htmlStep, HtmlReadG.toRead, htmlHandler, coalesceGo]
 
 /-- The void clause of `html_events_wellnested` really needs the tokenizer contract: `QName('{br')`
     is `br`, but `'{br'` is not in `_EMPTY_ELEMS`, so a tokenizer reporting the tag `{br` would get
